@@ -4,8 +4,10 @@ import TrustVerif.Generated.Control
 # C18 — model of the control endpoint's request gate
 
 Mirrors, function by function,
-* `crates/trust-runtime/src/control/transport.rs` `handle_unix_client` / `handle_client`
-  (one reply line per request line; `BufRead::lines` ends the connection on invalid UTF-8),
+* `crates/trust-runtime/src/control/transport.rs` `handle_unix_client` / `handle_client` /
+  `read_request_line` (one reply line per request line, the connection stays open; the line's bytes
+  without the trailing `\n` / `\r\n` are decoded with `String::from_utf8_lossy`, so bytes that are not
+  valid UTF-8 reach the parser as U+FFFD and the line is treated like any other text),
 * `crates/trust-runtime/src/control.rs` `handle_request_line`, `handle_request_value`,
   `resolve_request_role`, `required_role_for_control_request`, `required_role_for_config_set`,
   `is_debug_request`, `handle_config_set` (as far as it touches the endpoint's own gates),
@@ -182,11 +184,10 @@ structure Request where
   nonce : String := ""
   deriving DecidableEq, Repr
 
-/-- What arrives on the socket. -/
+/-- What arrives on the socket, after `read_request_line`: the text of the line (lossily decoded, so
+there is no "not text" case any more) either fails to parse or is a request. -/
 inductive Line where
-  /-- not valid UTF-8: `BufRead::lines` yields `Err`, `map_while(Result::ok)` ends the loop -/
-  | notUtf8
-  /-- `serde_json::from_str::<Value>` fails -/
+  /-- `serde_json::from_str::<Value>` fails on the (lossily decoded) text -/
   | notJson
   /-- JSON, but `serde_json::from_value::<ControlRequest>` fails -/
   | notRequest
@@ -442,8 +443,6 @@ def runHandler (ep : Endpoint) (r : Request) : Endpoint × List Probe :=
 /-! ## Replies and the step function -/
 
 inductive Reply where
-  /-- the connection is closed without a reply (transport; invalid UTF-8) -/
-  | closed
   /-- `ControlResponse::error(0, "invalid request: …")` -/
   | invalid
   /-- `ControlResponse::error(id, "unauthorized")` -/
@@ -487,7 +486,6 @@ def handleRequest (ep : Endpoint) (r : Request) : Endpoint × Out :=
 
 /-- One line on a connection (`handle_unix_client` + `handle_request_line`). -/
 def step (ep : Endpoint) : Line → Endpoint × Out
-  | .notUtf8 => (ep, ⟨.closed, []⟩)
   | .notJson => (ep, ⟨.invalid, []⟩)
   | .notRequest => (ep, ⟨.invalid, []⟩)
   | .request r => handleRequest ep r
